@@ -62,6 +62,10 @@ var kind18Names = [nKinds18]string{"render_log", "render_pixels", "transcode", "
 type shared18 struct {
 	inputs [][]byte
 	pal    *[64]color.RGBA
+	// rawPal is a caller's palette as it may come from anywhere: some entries are
+	// not valid premultiplied colours, some look like gradients. Colour helpers
+	// receive pointers to it and to rawReg and must only read them.
+	rawPal, rawReg *[64]color.RGBA
 	stops  []generate.GradientStop
 	paths  []string
 	mdPath *mdicons.Path
@@ -155,6 +159,10 @@ func task18(kind int, in int, sh *shared18, variant uint64) [32]byte {
 			x1, ok1 := k.Encode1()
 			x2, ok2 := k.Encode2()
 			h.Write([]byte(fmt.Sprint(x1, ok1, x2, ok2, ivg.DecodeColor1(uint8(i*3)).String())))
+			for _, q := range [...]ivg.Color{ivg.PaletteIndexColor(uint8(i)), ivg.CRegColor(uint8(i)), ivg.BlendColor(uint8(variant)|1, 0x80|uint8(i), 0xc0|uint8(i))} {
+				r := q.Resolve(sh.rawPal, sh.rawReg)
+				h.Write([]byte{r.R, r.G, r.B, r.A})
+			}
 		}
 		a, bb, cc, dd := ivg.DefaultViewBox.AspectMeet(100, 50, ivg.Mid, ivg.Max)
 		e, f, gg, hh := ivg.DefaultMetadata.ViewBox.AspectSlice(100, 50, ivg.Min, ivg.Mid)
@@ -195,7 +203,7 @@ func sharedHash18(sh *shared18) [32]byte {
 	for _, b := range sh.inputs {
 		h.Write(b)
 	}
-	h.Write([]byte(fmt.Sprint(*sh.pal, sh.stops, sh.paths, sh.mdPath.D, sh.circ)))
+	h.Write([]byte(fmt.Sprint(*sh.pal, *sh.rawPal, *sh.rawReg, sh.stops, sh.paths, sh.mdPath.D, sh.circ)))
 	var out [32]byte
 	copy(out[:], h.Sum(nil))
 	return out
@@ -253,6 +261,15 @@ func c18Round(c *run.Ctx, idx uint64) {
 	}
 	pal := gen.Palette(r)
 	sh.pal = &pal
+	var rawPal, rawReg [64]color.RGBA
+	for i := range rawPal {
+		rawPal[i], rawReg[i] = gen.AnyRGBA(r), gen.AnyRGBA(r)
+		if i%8 == 3 {
+			rawPal[i] = color.RGBA{0x02, 0x14, 0x94, 0x00} // gradient-looking
+			rawReg[i] = color.RGBA{0xff, 0x00, 0x00, 0x10} // not premultiplied
+		}
+	}
+	sh.rawPal, sh.rawReg = &rawPal, &rawReg
 	sh.stops = []generate.GradientStop{{Offset: 0, Color: color.RGBA{0xff, 0, 0, 0xff}}, {Offset: 0.5, Color: color.NRGBA{0, 0xff, 0, 0x80}}, {Offset: 1, Color: color.Gray{0x40}}}
 	for i := 0; i < 3; i++ {
 		s, _ := gen.PathString(r, true)
